@@ -108,7 +108,7 @@ def _run(cfg):
             rec.events[-1]["best"] = arms.which(pt2)
             arms.diff(rec.events[-1])
         r = grid_reward(cfg["pattern"], rnd, RU, pt, box)
-        rec.recv(t0 + i, r, rcode=int(round(r * RU)))
+        rec.recv(t0 + i, R.cast_reward(r, cfg.get("rtype")), rcode=int(round(r * RU)))
         if rec.failed:
             break
         arms.diff(rec.events[-1])
